@@ -93,6 +93,18 @@ def check_sign_conventions(w, rep):
         return
     f, x, p = model["f"], model["x"], model["p"]
     xa = sym_atoms_of(x)
+    # the script (and quadrotor.sim) builds the numeric parameter and state vectors POSITIONALLY from list(<defaults>.values()):
+    # the defaults must be listed in the order of the symbolic vectors (seeded C17-12 swapped g and m in p_defaults: a 9.8 kg
+    # vehicle under 2 m/s^2, same trim thrust, a position loop that no longer settles)
+    nm = lambda a: a.symname if a.key[1] is None else "%s_%d" % (a.symname, a.key[1])
+    for vec, dname in ((p, "p_defaults"), (x, "x0_defaults")):
+        d_ = model.get(dname)
+        names = [nm(a) for a in sym_atoms_of(vec)]
+        if isinstance(d_, dict):
+            rep.check("C17.wiring", "quadrotor %s lists its entries in the order of the symbolic vector (the simulator fills the vector positionally)" % dname, list(d_) == names,
+                      "%s is ordered %s..., the vector %s...: position %d differs - list(%s.values()) assigns values to the wrong entries" % (
+                          dname, [k for k, n_ in zip(d_, names) if k != n_][:2], [n_ for k, n_ in zip(d_, names) if k != n_][:2],
+                          next((i for i, (k, n_) in enumerate(zip(d_, names)) if k != n_), min(len(d_), len(names))), dname), where=Wq)
     pa = {a.symname if a.key[1] is None else "%s_%d" % (a.symname, a.key[1]): a for a in sym_atoms_of(p)}
     pd = model["p_defaults"]
     geo = {pa[k]: cm.to_mat(v).s() for k, v in pd.items() if k.startswith(("dir_motor", "l_motor", "theta_motor")) and k in pa}
